@@ -401,21 +401,35 @@ class NumberMagic:
 MAX_PAD_LENGTH = 500
 
 
+# markers standing for protected regions (<nowiki>, <math>, ...), see mwlib.utils.uniq
+_uniq_marker_rex = re.compile("(\x7fUNIQ-[a-z0-9]+-\\d+-[a-f0-9]+-QINU\x7f)")
+
+
+def _outside_markers(fun, input_string):
+    """apply fun to the text between markers; the markers themselves must stay as they are"""
+    parts = _uniq_marker_rex.split(input_string)
+    return "".join(part if i % 2 else fun(part) for i, part in enumerate(parts))
+
+
 class StringMagic:
     @single_arg
     def LC(self, input_string):
-        return input_string.lower()
+        return _outside_markers(str.lower, input_string)
 
     @single_arg
     def UC(self, input_string):
-        return input_string.upper()
+        return _outside_markers(str.upper, input_string)
 
     @single_arg
     def LCFIRST(self, input_string):
+        if _uniq_marker_rex.match(input_string):
+            return input_string
         return input_string[:1].lower() + input_string[1:]
 
     @single_arg
     def UCFIRST(self, input_string):
+        if _uniq_marker_rex.match(input_string):
+            return input_string
         return input_string[:1].upper() + input_string[1:]
 
     def PADLEFT(self, args):
